@@ -19,6 +19,9 @@ def sh(cmd, **kw):
     return subprocess.run(cmd, stdout=subprocess.PIPE, stderr=subprocess.STDOUT, text=True, **kw)
 
 
+NDEBUG = []
+
+
 def build_demo(d, demo, out):
     src = open(demo).read()
     srcs = [os.path.join(d, "src", f) for f in sorted(os.listdir(os.path.join(d, "src"))) if f.endswith(".c")]
@@ -29,7 +32,7 @@ def build_demo(d, demo, out):
     if "__wrap_" in src:
         import re
         extra.append("-Wl," + ",".join("--wrap=" + w for w in sorted(set(re.findall(r"__wrap_(\w+)", src)))))
-    r = sh(cc + ["-std=gnu11", "-DPOLYSEED_STATIC", "-I", os.path.join(d, "include"), "-iquote", os.path.join(d, "src"), demo] + srcs + ["-o", out] + extra)
+    r = sh(cc + NDEBUG + ["-std=gnu11", "-DPOLYSEED_STATIC", "-I", os.path.join(d, "include"), "-iquote", os.path.join(d, "src"), demo] + srcs + ["-o", out] + extra)
     return r.returncode == 0, r.stdout[-400:]
 
 
@@ -48,7 +51,12 @@ def main():
         ok, msg = build_demo(d, a.demo, os.path.join(d, "demo_clean"))
         assert ok, "demo does not build on the clean tree: " + msg
         r0 = subprocess.run([os.path.join(d, "demo_clean")], stdout=subprocess.PIPE, stderr=subprocess.STDOUT, timeout=600, env=env)
-        log.append("demo on unchanged tree: exit %d" % r0.returncode)
+        if r0.returncode == -6:
+            # the agents build in Release mode: a demonstration whose stubs do not satisfy the debug self-test
+            NDEBUG.append("-DNDEBUG")
+            ok, msg = build_demo(d, a.demo, os.path.join(d, "demo_clean"))
+            r0 = subprocess.run([os.path.join(d, "demo_clean")], stdout=subprocess.PIPE, stderr=subprocess.STDOUT, timeout=600, env=env)
+        log.append("demo on unchanged tree: exit %d%s" % (r0.returncode, " (built with -DNDEBUG)" if NDEBUG else ""))
         r = sh(["git", "-C", d, "apply", os.path.abspath(a.patch)])
         assert r.returncode == 0, "patch does not apply: " + r.stdout
         srcs = [os.path.join(d, "src", f) for f in os.listdir(os.path.join(d, "src")) if f.endswith(".c")]
